@@ -548,6 +548,22 @@ func timeoutDisabled(fn *ssa.Function, recv ssa.Value, call ssa.CallInstruction)
 }
 
 // checkTokenIDUses: R04.6.
+// isDictionaryMethod: fn is a method of the dictionary type (the type of the Classifier's dictionary field).
+func isDictionaryMethod(p *core.Prog, fn *ssa.Function) bool {
+	r := rolesOf(p)
+	cls := p.Named(v2pkg, "Classifier")
+	if cls == nil || r.dict == "" || fn.Signature.Recv() == nil {
+		return false
+	}
+	st := core.StructOf(cls)
+	for i := 0; i < st.NumFields(); i++ {
+		if st.Field(i).Name() == r.dict {
+			return types.Identical(fn.Signature.Recv().Type(), st.Field(i).Type())
+		}
+	}
+	return false
+}
+
 func checkTokenIDUses(c *Ctx, p *core.Prog) {
 	var tid *types.Named
 	if r := rolesOf(p); r.ok {
@@ -577,7 +593,9 @@ func checkTokenIDUses(c *Ctx, p *core.Prog) {
 				case token.EQL, token.NEQ:
 					continue
 				}
-				if p.IsFn(fn, v2pkg, "(*dictionary).add") {
+				if p.IsFn(fn, v2pkg, "(*dictionary).add") || isDictionaryMethod(p, fn) {
+					// the dictionary hands the ids out and may store its words by id (an id is an index there): that is its
+					// representation, not a use of the order of ids in a result
 					continue
 				}
 				bad++
@@ -599,6 +617,9 @@ func checkTokenIDUses(c *Ctx, p *core.Prog) {
 				n++
 				if bt, ok := cv.Type().Underlying().(*types.Basic); ok && bt.Kind() == types.Int32 {
 					continue // rune for the diff alphabet
+				}
+				if isDictionaryMethod(p, fn) {
+					continue // the dictionary's own representation (an id as an index)
 				}
 				bad++
 				c.R.Fail("R04.6", core.ShortFn(fn)+": token id converted to "+cv.Type().String(), p.Pos(cv.Pos()), "token ids may only be compared for equality or turned into diff runes")
